@@ -278,11 +278,17 @@ def chain_of(v):
 def s3(ctx, rep):
     wanted = [('parse_struct', 'RustStruct', 'fields'), ('parse_enum', 'RustEnumShared', 'variants'), ('parse_enum_variant', 'RustEnumVariant::AnonymousStruct', 'fields')]
     for fn_name, owner, fld in wanted:
-        f = ctx.fn(fn_name, file='parser.rs')
+        f = ctx.fnx(fn_name, file='parser.rs')
         st = [s for s in f['structs'] if s['path'].endswith(owner.split('::')[-1]) or s['path'] == owner]
         if not st:
             raise core.Incomplete(f'{fn_name}: construction of {owner} not found')
         v = st[0]['v']['fields'].get(fld)
+        # the list may come back from a helper wrapped in a private enum / Result (`struct_shape(s)?` → `Shape::Fields(f)`):
+        # fold that away; an empty literal (`vec![]`, unit struct) has no members to judge
+        from .. import special
+        alts = [a_ for a_ in special.simplify(v) if not (isinstance(vt.strip(a_), dict) and vt.strip(a_).get('k') == 'vecof' and not vt.strip(a_).get('items'))]
+        if len(alts) == 1:
+            v = alts[0]
         calls, root = chain_of(v)
         names = [c['f'] for c in calls]
         site = {'file': f['file'], 'line': st[0]['line']}
